@@ -210,7 +210,7 @@ class Machine:
                         if is_const(raw) and to_int(raw) == 0:
                             env[i.id] = Ptr("null", 0)
                             continue
-                        raise Unsupported("pointer load")
+                        raise Unsupported("pointer load at %s" % i.where())
                     env[i.id] = self.load(p, i.d["sz"])[:self.width(i.ty)]
                     continue
                 if op == "store":
@@ -268,6 +268,10 @@ class Machine:
                     env_res = self.do_call(i, env, depth)
                     if i.id:
                         env[i.id] = env_res
+                    if op == "invoke":
+                        # no exception is modelled: control continues at the normal destination
+                        nxt = i.succs[0] if getattr(i, "succs", None) else i.d["succs"][0]
+                        break
                     continue
                 if op == "unreachable":
                     raise Unsupported("unreachable")
@@ -313,7 +317,12 @@ class Machine:
                     self.objsize[name] = len(data)
                     for k, bt in enumerate(data):
                         self.mem[(name, k)] = const_bits(bt, 8)
+                    # pointer-valued slots (vtables, tables of functions): the addresses they hold
+                    for off, sym in g.get("ptrs", []):
+                        self.pmem[(name, off)] = Ptr("@" + sym, 0)
                 return Ptr(name, 0)
+            # any other global (a vtable, a function): an address without readable contents
+            return Ptr("@" + o[1:], 0)
         raise Unsupported("operand %r" % (o,))
 
     def binop(self, i, env):
@@ -429,6 +438,14 @@ class Machine:
 
     def do_call(self, i, env, depth):
         cal = i.callee or ""
+        if not cal and "calleev" in i.d:
+            # indirect call: followed when the called value is the address of a defined function (a virtual call on an
+            # object whose vtable pointer was stored by the constructor being interpreted)
+            tgt = self.val(env, i.d["calleev"], "i8*")
+            if isinstance(tgt, Ptr) and tgt.off == 0 and tgt.obj.startswith("@") and tgt.obj[1:] in self.m.funcs:
+                cal = tgt.obj[1:]
+            else:
+                raise Unsupported("indirect call")
         argty = i.d.get("argty", [])
         args = [self.val(env, a, argty[k] if k < len(argty) else "i64") for k, a in enumerate(i.ops)]
         if cal.startswith("llvm.dbg") or cal.startswith("llvm.lifetime"):
